@@ -675,14 +675,15 @@ func runParent(id, tier string) int {
 				isKnown = true
 			}
 		}
+		// the failing case is written for tracked findings too (bin/check --replay reproduces them)
+		path := fmt.Sprintf("%s/replays/%s/%s.json", outDir(), id, sanitize(v.Sig))
+		rf := map[string]any{"property": id, "tier": tier, "sig": v.Sig, "clause": v.Clause, "detail": v.Detail, "case": v.Case, "count": v.Count, "tracked_finding": isKnown}
+		b, _ := json.MarshalIndent(rf, "", " ")
+		os.WriteFile(path, b, 0644)
 		if isKnown {
 			continue
 		}
 		unknown++
-		path := fmt.Sprintf("%s/replays/%s/%s.json", outDir(), id, sanitize(v.Sig))
-		rf := map[string]any{"property": id, "tier": tier, "sig": v.Sig, "clause": v.Clause, "detail": v.Detail, "case": v.Case, "count": v.Count}
-		b, _ := json.MarshalIndent(rf, "", " ")
-		os.WriteFile(path, b, 0644)
 		lines = append(lines, fmt.Sprintf("VIOLATION property=%s replay=%s", id, path))
 		fmt.Fprintf(os.Stderr, "--- violation %s (cases=%d)\n    clause: %s\n    %s\n", v.Sig, v.Count, v.Clause, strings.ReplaceAll(v.Detail, "\n", "\n    "))
 	}
